@@ -292,12 +292,21 @@ class Scheduler(Subject):
         if call_api.task_context:
             task_uuid = call_api.task_context.uuid
             if task_uuid in self.loop_counters:
-                current_loop_counters = self.loop_counters[task_uuid]
+                # counters of sequential loops are stored under the loop object,
+                # those of parallel loops under the name of the counting variable
+                current_loop_counters = {}
+                for key, counter in self.loop_counters[task_uuid].items():
+                    if isinstance(key, CountingLoop):
+                        current_loop_counters[key.counting_variable] = counter
+                    else:
+                        current_loop_counters[key] = counter
 
                 counter_was_raised = {}
                 for i, input_parameter in enumerate(call_api.input_parameters):
                     if isinstance(input_parameter, List):
                         for j, element in enumerate(input_parameter):
+                            if not (element.startswith("[") and element.endswith("]")):
+                                continue
                             counting_variable = element.replace("[", "").replace("]", "")
                             if counting_variable in current_loop_counters:
                                 value = current_loop_counters[counting_variable]
